@@ -85,6 +85,7 @@ type describeResponse struct {
 	SeedNotes []string  `json:"seed_notes"`
 	LpFrames  int       `json:"lp_frames"`
 	Fixed     [][]any   `json:"fixed_alloc_over_4k"`
+	Accessors []string  `json:"accessors"`
 }
 
 type famDesc struct {
@@ -189,7 +190,7 @@ func isRepoFrame(fn string) bool {
 // isPrimitive: tiny helpers that only fail because of what their caller passed in; the caller is
 // the root cause and is made part of the site.
 func isPrimitive(fn string) bool {
-	return strings.Contains(fn, "/std/encoding.TLNum.") || strings.Contains(fn, "/std/encoding.Nat.") || strings.HasSuffix(fn, "/std/encoding.ParseTLNum")
+	return strings.Contains(fn, "/std/encoding.TLNum.") || strings.Contains(fn, "/std/encoding.Nat.") || strings.HasSuffix(fn, "/std/encoding.ParseTLNum") || strings.HasSuffix(fn, "/std/encoding.ParseComponent")
 }
 
 func siteFromPCs(pcs []uintptr) (site, where string) {
@@ -203,7 +204,10 @@ func siteFromPCs(pcs []uintptr) (site, where string) {
 					return
 				}
 			} else {
-				return site + " <- " + siteOf(f.Function, f.File, f.Line), where + " <- " + fmt.Sprintf("%s:%d", f.File, f.Line)
+				site, where = site+" <- "+siteOf(f.Function, f.File, f.Line), where+" <- "+fmt.Sprintf("%s:%d", f.File, f.Line)
+				if !isPrimitive(f.Function) {
+					return
+				}
 			}
 		}
 		if !more {
@@ -238,7 +242,10 @@ func siteFromTrace(trace string) (site, where string) {
 					return
 				}
 			} else {
-				return site + " <- " + siteOf(fn, m[1], ln), where + " <- " + m[1] + ":" + m[2]
+				site, where = site+" <- "+siteOf(fn, m[1], ln), where+" <- "+m[1]+":"+m[2]
+				if !isPrimitive(fn) {
+					return
+				}
 			}
 		}
 	}
@@ -705,7 +712,7 @@ func runAttr(t task, a *acc) {
 }
 
 func describe() *describeResponse {
-	d := &describeResponse{Generated: len(generated), From: generatedFrom, SeedNotes: seedNotes, LpFrames: len(lpAlphabet)}
+	d := &describeResponse{Generated: len(generated), From: generatedFrom, SeedNotes: seedNotes, LpFrames: len(lpAlphabet), Accessors: sweptAccessors()}
 	for i := range entries {
 		ensureCal(&entries[i])
 		d.Entries = append(d.Entries, entries[i].name)
@@ -774,6 +781,8 @@ func workerMain(markerPath string) {
 				a.res.Extra = map[string]any{}
 			}
 			a.res.Extra["trips"], a.res.Extra["precise"], a.res.Extra["trivial"] = a.trips, a.precise, a.trivial
+			a.res.Extra["sweep"] = sweepCalls
+			sweepCalls = 0
 			mark(0, 0, 0)
 			if err := enc.Encode(&a.res); err != nil {
 				os.Exit(3)
